@@ -14,7 +14,7 @@
 //   self  the dual: the callback destroys its own stop_callback from inside AFTER its task has given up the worker
 //         (and, where the scheduler steals, has migrated to another worker OS thread): the destructor must
 //         return at once (it runs on "its own thread" = the same task), the callback runs exactly once and
-//         request_stop returns.  Watchdog 5 s -> deadlock.
+//         request_stop returns.  Watchdog 10 s -> deadlock.
 //
 // usage: c14_ident <workers> <static|local> <seed> <n>
 // output: IN ID <k> scen=.. ...   OUT ID <k> ...
@@ -143,7 +143,7 @@ int main(int argc, char** argv)
             long cur = g_beat.load();
             same = (cur == seen) ? same + 1 : 0;
             seen = cur;
-            if (same >= 60)    // 15 s without progress
+            if (same >= 120)    // 30 s without progress
             {
                 std::printf("OUT ID %d scen=%s hang=1\n", g_case.load(), g_scen);
                 std::fflush(stdout);
@@ -204,7 +204,7 @@ int main(int argc, char** argv)
                 sh->early = sh->cb_done.load() ? 0 : 1;      // the destructor returned: has the callback finished?
                 sh->b_done = true;
             });
-            bool fin = wait_os([&] { return sh->a_done.load() && sh->b_done.load(); }, 6000);
+            bool fin = wait_os([&] { return sh->a_done.load() && sh->b_done.load(); }, 10000);
             if (!fin)
             {
                 std::printf("OUT ID %d scen=dtor returned=0 a_done=%d b_done=%d in_cb=%d cb_done=%d same_os=%d\n", cs, (int) sh->a_done.load(),
@@ -262,7 +262,7 @@ int main(int argc, char** argv)
                     pika::this_thread::yield();
                 }
             });
-            bool fin = wait_os([&] { return sh->a_done.load(); }, 5000);
+            bool fin = wait_os([&] { return sh->a_done.load(); }, 10000);
             stop_fill = true;
             if (!fin)
             {
